@@ -105,6 +105,24 @@ def ref_form(a, b, mode):
     return (PROVED if ok and same and mut else REFUTED), "%s -> %s: %s; result is the receiver's address at offset 0: %s; same mutability: %s" % (tstr(tin), tstr(tout), det, same, mut)
 
 
+def check_owned(ctx, cfg, rule="C11.E"):
+    """By-value flatten / unflatten: byte provenance - the result is exactly the bytes of self (all of them, from offset 0), self is moved
+    and never dropped, no foreign call. unflatten is judged on its documented domain (N divides NM): NM == N * floor(NM / N) is the precondition."""
+    from .c09 import provenance_rule
+    from ..poly import Poly as _P
+    n = 0
+    for key, mode in OWNED:
+        def pre(a, S, N, mode=mode):
+            if mode != "le":
+                return []
+            g = a.body["generics"]
+            NM = a.tenv.length({"k": "param", "n": g[1]["n"]})
+            Nn = a.tenv.length({"k": "param", "n": g[2]["n"]})
+            return [("poly", "==", NM - Nn * _P.atom(("div", NM, Nn)))]
+        n += provenance_rule(ctx, cfg, key, lambda a, S, N: [[(a.tenv.size(a.local_ty(1)), ("arg", 1), _P.const(0))]], pre=pre, rule=rule)
+    return n
+
+
 def check(ctx):
     ctx.explanation = EXPLANATION
     ctx.trusted = ["rustc MIR construction; typenum Prod/Quot semantics (Prod<N,M>::USIZE = N*M, Quot<NM,N>::USIZE = floor(NM/N))",
@@ -114,20 +132,7 @@ def check(ctx):
     ctx.need(*cfgs)
     for cfg in cfgs:
         check_const_transmute(ctx, cfg)
-        n = 0
-        from .c09 import provenance_rule
-        from ..poly import Poly as _P
-        for key, mode in OWNED:
-            # byte provenance: the result is exactly the bytes of self (all of them, from offset 0), self is moved and never dropped, no foreign call.
-            # unflatten is judged on its documented domain (N divides NM): the fact NM == N * floor(NM / N) is the precondition.
-            def pre(a, S, N, mode=mode):
-                if mode != "le":
-                    return []
-                g = a.body["generics"]
-                NM = a.tenv.length({"k": "param", "n": g[1]["n"]})
-                Nn = a.tenv.length({"k": "param", "n": g[2]["n"]})
-                return [("poly", "==", NM - Nn * _P.atom(("div", NM, Nn)))]
-            n += provenance_rule(ctx, cfg, key, lambda a, S, N: [[(a.tenv.size(a.local_ty(1)), ("arg", 1), _P.const(0))]], pre=pre, rule="C11.E")
+        n = check_owned(ctx, cfg)
         for key, mode in REFS:
             b = ctx.body(cfg, key, "C11.E")
             if b is None:
